@@ -177,7 +177,11 @@ def truth(v, st=None):
             return z3.And(z3.Not(v.none), v.term != 0)
         raise Unsupported(f"truth of {v.ty}")
     if k == "list" and st is not None:
-        return st.length(v.term, v.ty[1]) > 0
+        n = st.length(v.term, v.ty[1])
+        st.assume(n >= 0)          # a fact about every real list (view axiom)
+        if strip_opt(v.ty[1])[0] == "ref":
+            st.assume_link(v.term)      # same view axiom as `len(xs)` brings: empty <=> no member (duplicate-free reference lists)
+        return n != 0              # `not xs` is then literally `len(xs) == 0`, the form the rest of the code (and the list axioms) use
     if k == "dyn":
         # truthiness of a JSON value: bools only (other tags unsupported -> obligation elsewhere)
         return dyn_bool(v.term)
